@@ -111,6 +111,9 @@ def run(pid, tier, seed):
         absf = abs_forms(rng, tier)
         relf = rel_forms(rng, tier)
         tzs = [("+00:00", 0), ("+09:00", 540), ("-08:00", -480)] if tier == "thorough" else [("+00:00", 0), ("+09:00", 540)]
+        # --tz-offset given as a zone NAME (the project's table): west of UTC with minutes, east with minutes, whole hours
+        named = [("NST", -210), ("NDT", -150), ("MART", -570), ("nst", -210), ("ACDT", 630), ("PST", -480), ("CEST", 120)]
+        tzs += named if tier == "thorough" else [named[seed % 3], named[3 + seed % 4]]
         jobs = []  # (argv_a, argv_b, tz, expect)  expect: ("ok", A, B) with A/B = (secs, nanos) | None | ("now", off) or ("reject",)
 
         def mean_abs(f, tzmin):
